@@ -37,7 +37,7 @@ func c13FarmState() (*vEnv, keeper.Keeper, sdk.AccAddress, []c13Pool) {
 	if err := k.SetParams(e.ctx, types.DefaultParams()); err != nil {
 		verifFail("default params rejected")
 	}
-	zero, one, w := big.NewInt(0), big.NewInt(1), verifPow2(64)
+	zero, one, w := big.NewInt(0), big.NewInt(1), verifAmt(64)
 	type ps = c13Pool
 	mk := func(n string, id string, end int64) ps {
 		p := ps{id: id, end: end, locked: verifIntIn("locked"+n, zero, w), remain: verifIntIn("remaining"+n, zero, w), rpb: verifIntIn("rpb"+n, one, w)}
@@ -52,6 +52,9 @@ func c13FarmState() (*vEnv, keeper.Keeper, sdk.AccAddress, []c13Pool) {
 	pools := []ps{mk("1", "farm-1", h)}
 	if verifChoice("two", 2) == 1 {
 		pools = append(pools, mk("2", "farm-2", h))
+		if verifTier() == 1 && verifChoice("three", 2) == 1 {
+			pools = append(pools, mk("4", "farm-4", h)) // thorough tier: up to three pools ending in this block
+		}
 	}
 	pools = append(pools, mk("3", "farm-3", h+9))
 	escL, escR := big.NewInt(0), big.NewInt(0)
@@ -61,7 +64,7 @@ func c13FarmState() (*vEnv, keeper.Keeper, sdk.AccAddress, []c13Pool) {
 		k.SetPool(e.ctx, pool)
 		total := p.remain.Add(sdkmath.NewInt(7))
 		k.SetRewardRule(e.ctx, p.id, types.RewardRule{Reward: reward, TotalReward: total, RemainingReward: p.remain, RewardPerBlock: p.rpb,
-			RewardPerShare: verifDec("rps"+p.id, zero, verifMul(verifPow2(64), verifPow10(18)))})
+			RewardPerShare: verifDec("rps"+p.id, zero, verifMul(verifAmt(64), verifPow10(18)))})
 		k.EnqueueActivePool(e.ctx, p.id, p.end)
 		escL, escR = verifAdd(escL, p.locked.BigInt()), verifAdd(escR, p.remain.BigInt())
 	}
